@@ -241,6 +241,15 @@ def _split_witness_gens(gens: list) -> list:
     return out
 
 
+def _unused_counter(pat: Term, it: Term, rest: Any):
+    """`for i, x in enumerate(S)` whose counter i is not looked at in `rest`: (x, S); else None"""
+    if it[0] == "call" and it[1] == "enumerate" and len(it[2]) == 1 and pat[0] == "tuplelit" and len(pat[1]) == 2 and pat[1][0][0] == "var":
+        cnt = pat[1][0]
+        if not any(x == cnt for x in subterms_of(rest)):
+            return pat[1][1], it[2][0]
+    return None
+
+
 def _norm_items_term(t: Any) -> Any:
     def f(s_: Term):
         if s_[0] == "comp" and len(s_) > 3 and any(c[0] == "iter-elem" for g in s_[3] for c in g[2]):
@@ -288,6 +297,9 @@ def _norm_items_term(t: Any) -> Any:
             if ch:
                 return ("accum", s_[1], s_[2], payload, tuple(gens), s_[5])
         if s_[0] == "forall-not":
+            un = _unused_counter(s_[1], s_[2], s_[3])
+            if un is not None:
+                return f0(("forall-not", un[0], un[1], s_[3])) or ("forall-not", un[0], un[1], s_[3])
             r = _items_gen(s_[1], s_[2])
             if r is not None:
                 k, src, m = r
@@ -378,9 +390,12 @@ def normalise_items(paths: list) -> list:
     for p in paths:
         m: dict = {}
         conds = []
-        for c in p.conds:
+        for ci_, c in enumerate(p.conds):
             c = _beta_dict(subst(_norm_items_term(c), m))
             if c[0] == "iter-elem":
+                un = _unused_counter(c[1], c[2], (p.conds[ci_ + 1:], p.value if p.kind == "return" else ()))
+                if un is not None:
+                    c = _beta_dict(subst(_norm_items_term(("iter-elem", un[0], un[1])), m))
                 r = _items_gen(c[1], c[2])
                 if r is not None:
                     k, src, m2 = r
@@ -843,6 +858,25 @@ def guarded_equal(x: Any, y: Any, guard, sa: SetAlg, depth: int = 0, foralls: tu
                         and satisfy(f_and(guard, norm_formula(my), f_not(norm_formula(mx)), *ax)) is None):
                     return True
             except TooManyAtoms:
+                pass
+        # the only element of a one-element list: L[0], L[-1], L.pop() (on a list nobody else reads) are the same
+        def only(t_):
+            if t_[0] == "index" and len(t_) == 3 and t_[2] in (("const", 0), ("const", -1)):
+                return t_[1]
+            if t_[0] == "meth" and t_[2] == "pop" and not t_[3] and not t_[4]:
+                return t_[1]
+            if t_[0] == "call" and t_[1] == "next" and len(t_[2]) == 1 and t_[2][0][0] == "call" and t_[2][0][1] == "iter" and len(t_[2][0][2]) == 1:
+                return t_[2][0][2][0]
+            return None
+        ox, oy = only(x), only(y)
+        if ox is not None and oy is not None and (sa.canon_top(ox) == sa.canon_top(oy) or guarded_equal(ox, oy, guard, sa, depth + 1, foralls)):
+            try:
+                one = norm_formula(sa.cond(("eq", ("len", ox), ("const", 1))))
+                if x[0] == y[0] and x[-1] == y[-1] and x[0] != "index":
+                    return True
+                if satisfy(f_and(guard, f_not(one))) is None:
+                    return True
+            except Exception:  # noqa: BLE001
                 pass
         # not equal as a whole: the same construction with pairwise equal parts is still equal
         if x[0] != y[0] or len(x) != len(y):
